@@ -204,6 +204,65 @@ theorem welfareCmp (tsat : List Pid → Rat) (rs : List (List Pid)) :
   rw [argmaxLoop_spec _ _ (fun x b => (welfareImproves x b).1) (fun x b => (welfareImproves x b).2) welfareTies]
   rfl
 
+/-- the WHOLE arg-max loop of `social_welfare_comparison` (statement-level leaf `Gen.C19.welfareLoop`, regenerated from
+    `for result in results: …`): on the outcomes paired with their total satisfaction it is the running-maximum loop `step` the
+    theorems above are about — same maximum, same list of maximisers in the same order -/
+theorem welfareLoop_eq_foldl : ∀ (xs : List (Nat × Rat)) (best : Option Rat) (argP : List (Nat × Rat)),
+    Gen.C19.welfareLoop best (argP.map Prod.fst) xs =
+      (fun st => (st.1, st.2.map Prod.fst))
+        (xs.foldl (step Gen.C19.welfareImproves Gen.C19.welfareTies Prod.snd) (best, argP))
+  | [], best, argP => by simp [Gen.C19.welfareLoop]
+  | x :: xs, best, argP => by
+    rw [Gen.C19.welfareLoop, List.foldl_cons]
+    cases best with
+    | none =>
+      have h := welfareLoop_eq_foldl xs (some x.2) [x]
+      simp only [List.map_cons, List.map_nil] at h
+      simp only [Option.isNone_none, Bool.true_or, if_true, step, Gen.C19.welfareImproves]
+      exact h
+    | some m =>
+      simp only [Option.isNone_some, Bool.false_or, Gen.C19.gtOpt, Gen.C19.eqOpt, step, Gen.C19.welfareImproves,
+        Gen.C19.welfareTies]
+      by_cases h1 : x.2 > m
+      · have h := welfareLoop_eq_foldl xs (some x.2) [x]
+        simp only [List.map_cons, List.map_nil] at h
+        simp only [h1, decide_true, if_true]
+        exact h
+      · by_cases h2 : x.2 = m
+        · have h := welfareLoop_eq_foldl xs (some m) (argP ++ [x])
+          simp only [List.map_append, List.map_cons, List.map_nil] at h
+          simp only [h1, h2, decide_false, decide_true, if_true, if_false, Bool.false_eq_true]
+          simpa [h2] using h
+        · have h := welfareLoop_eq_foldl xs (some m) argP
+          simp only [h1, h2, decide_false, if_false, Bool.false_eq_true]
+          exact h
+
+/-- hence the regenerated loop, started as the code starts it (`None`, no arg-max yet) on the distinct outcomes numbered in order,
+    returns the positions of exactly the outcomes the model's `welfareCmp` returns -/
+theorem welfareLoop_spec (f : Nat → Rat) (idx : List Nat) :
+    Gen.C19.welfareLoop none [] (idx.map (fun i => (i, f i))) =
+      (maxRat (idx.map f), match maxRat (idx.map f) with
+        | none => []
+        | some mx => idx.filter (fun i => decide (f i = mx))) := by
+  have h := welfareLoop_eq_foldl (idx.map (fun i => (i, f i))) none []
+  simp only [List.map_nil] at h
+  rw [h]
+  have hs := argmaxLoop_spec Gen.C19.welfareImproves Gen.C19.welfareTies (fun x b => (welfareImproves x b).1)
+    (fun x b => (welfareImproves x b).2) welfareTies (Prod.snd : Nat × Rat → Rat) (idx.map (fun i => (i, f i)))
+  unfold argmaxLoop at hs
+  rw [hs]
+  unfold argmaxSpec
+  have hm : (idx.map (fun i => (i, f i))).map Prod.snd = idx.map f := by simp [List.map_map, Function.comp_def]
+  rw [hm]
+  cases maxRat (idx.map f) with
+  | none => rfl
+  | some mx =>
+    simp only [List.filter_map, List.map_map, Function.comp_def]
+    congr 1
+    induction idx with
+    | nil => rfl
+    | cons i is ih => simp [List.filter_cons, ih]
+
 /-- the per-voter loop of `popularity_comparison`: the model's favourites of a voter are the `arg_max_sat`
     list of the code's loop -/
 theorem favourites (s : List Pid → Rat) (rs : List (List Pid)) :
